@@ -19,6 +19,12 @@ Init ==
   \/ \E op \in {"lui", "auipc"}, rd \in Regs, imm \in Imm20 : c = In(op, rd, 0, 0, imm)
   \/ \E rd \in Regs, imm \in Imm21 : c = In("jal", rd, 0, 0, imm)
   \/ \E op \in {"ecall", "ebreak"} : c = In(op, 0, 0, 0, 0)
+\* the RV64I word forms, for the field clause of C06 (assembled under .riscv64)
+Init64 ==
+  \/ \E op \in DOMAIN OpRW, rd \in Regs, rs1 \in Regs, rs2 \in Regs : c = In(op, rd, rs1, rs2, 0)
+  \/ \E op \in DOMAIN OpShW, rd \in Regs, rs1 \in Regs, imm \in {0, 1, 15, 16, 31, 32, 33, 40, 63, 64, -1} : c = In(op, rd, rs1, 0, imm)
+  \/ \E op \in {"addiw", "lwu", "ld"}, rd \in Regs, rs1 \in Regs, imm \in Imm12 : c = In(op, rd, rs1, 0, imm)
+  \/ \E rs1 \in Regs, rs2 \in Regs, imm \in Imm12 : c = In("sd", 0, rs1, rs2, imm)
 Next == FALSE /\ UNCHANGED c
 Emit == PrintT("CASE " \o ToJson(c))
 =============================================================================
